@@ -674,8 +674,14 @@ def r_nulled(e, R):
             return False
         gates = [(t, l) for t, l in _flag_gate_tests(e, func)]
         ngates = [(t, l) for t, l, fld in _none_gates(e, func, is_field) if field is None or fld == field]
+        held = e.held(func)
         for n in nodes:
-            if not any(g.on_branch(n, t, l) or _dominated_by_branch(g, n, t, l) for t, l in gates + ngates):
+            ok = any(g.on_branch(n, t, l) for t, l in ngates)
+            for t, l in gates:
+                # a flag gate protects only what runs inside the lock region it was tested in
+                if g.on_branch(n, t, l) and (held[t] <= held[n] or not held[t]):
+                    ok = True
+            if not ok:
                 return False
         return True
 
